@@ -319,6 +319,46 @@ impl<'w, 'c> Run<'w, 'c> {
             if arr.to_vec() != exp {
                 self.fail("array-iter", "to_vec() differs".to_string());
             }
+            // iterator adaptors: whatever `nth` / `skip` / `step_by` / `count` / `last` do internally,
+            // they must expose exactly the elements of the array, also for step counts near usize::MAX
+            self.op("iter:nth/skip/step_by/count/last".to_string());
+            let big = [usize::MAX, usize::MAX - 1, usize::MAX / 2, usize::MAX / 2 + 1, usize::MAX / 2 + 2, usize::MAX / 4 + 1, usize::MAX / 8 + 1, usize::MAX / 3 + 1];
+            let mut ks: Vec<usize> = vec![0, 1, n.saturating_sub(1), n, n + 1];
+            let h = n.wrapping_mul(2654435761).wrapping_add(self.trace.len().wrapping_mul(40503));
+            ks.push(h % (n + 2));
+            ks.push(big[h % big.len()]);
+            ks.push(big[(h / 8) % big.len()]);
+            for k in ks {
+                let mut it = arr.iter();
+                let a = it.nth(k);
+                if a != exp.get(k).cloned() {
+                    self.fail("array-iter-adaptor", format!("iter().nth({}) = {:?} expected {:?} (n={})", k, a, exp.get(k), n));
+                }
+                let b = it.next();
+                let eb = k.checked_add(1).and_then(|j| exp.get(j).cloned());
+                if b != eb {
+                    self.fail("array-iter-adaptor", format!("next() after nth({}) = {:?} expected {:?} (n={})", k, b, eb, n));
+                }
+                let c = arr.iter().skip(k).next();
+                if c != exp.get(k).cloned() {
+                    self.fail("array-iter-adaptor", format!("iter().skip({}).next() = {:?} expected {:?} (n={})", k, c, exp.get(k), n));
+                }
+                if k > n {
+                    self.cx.class("array:iter-nth-beyond-end");
+                }
+                if k > usize::MAX / 16 {
+                    self.cx.class("array:iter-nth-huge");
+                }
+            }
+            let step = 1 + (n.wrapping_add(self.trace.len())) % 4;
+            let sb: Vec<T::HostType> = arr.iter().step_by(step).collect();
+            let esb: Vec<T::HostType> = exp.iter().cloned().step_by(step).collect();
+            if sb != esb {
+                self.fail("array-iter-adaptor", format!("iter().step_by({}) differs (n={})", step, n));
+            }
+            if arr.iter().count() != n || arr.iter().last() != exp.last().cloned() {
+                self.fail("array-iter-adaptor", format!("iter().count()/last() differ (n={})", n));
+            }
             if arr.read_to_vec().ok().as_ref() != Some(&exp) {
                 self.fail("array-iter", "read_to_vec() differs".to_string());
             }
